@@ -103,6 +103,31 @@ def layout_of(data, lost_at=None, lost=None, hole=False):
     return lay
 
 
+class Runaway(Exception):
+    pass
+
+
+class Dribble(io.RawIOBase):
+    """a raw file object that never takes more than `n` bytes per write call (a nearly full pipe): every part of every
+    frame goes out in several short writes in a row"""
+
+    def __init__(self, n, limit):
+        self.data, self.n, self.limit = bytearray(), n, limit
+
+    def writable(self):
+        return True
+
+    def write(self, b):
+        if len(self.data) > self.limit:
+            raise Runaway("the writer keeps writing: far more bytes than the whole stream has")
+        b = bytes(b)[: self.n]
+        self.data += b
+        return len(b)
+
+    def flush(self):
+        pass
+
+
 class Hang(BaseException):
     pass
 
@@ -167,7 +192,7 @@ def run(tier):
         r = ctx.tlc("StreamBytes", "MC_StreamBytes_dev_ShortLenRaises.cfg", "negative control: raising instead of ending inside a length prefix is NOT a violation", workers=4)
         if r.violations:
             raise common.MachineryError("negative control ShortLenRaises violated the contract: the contract is too strict")
-    streams = gen.fixed_streams() + gen.sample_streams(ctx.rnd, 10 if not thorough else 60, (3, 7) if not thorough else (3, 12))
+    streams = gen.fixed_streams() + gen.sample_streams(ctx.rnd, 10 if not thorough else 60, (3, 7) if not thorough else (3, 12)) + gen.big_streams()
     cases, meta = [], []
     tmp = common.scratch("c04files")
     for si, recs in enumerate(streams):
@@ -188,8 +213,20 @@ def run(tier):
             continue
         if si < 2:
             ctx.sample({"stream": si, "layout": lay, "bytes": len(data), "records": len(recs)})
-        # (a) every byte offset of the raw stream
-        for cut in range(0, len(data) + 1):
+        # (a) every byte offset of the raw stream (for a stream with very large frames: the offsets around every frame
+        #     boundary and a seeded sample of the others)
+        big = len(data) > 20000
+        if big:
+            edges, pos = set(), 0
+            for f in lay:
+                for dlt in (-2, -1, 0, 1, 2, 3, 4, 5):
+                    edges.add(pos + dlt)
+                pos += 4 + f["len"]
+            edges |= {len(data) - 1, len(data)} | set(ctx.rnd.sample(range(len(data)), 60))
+            all_cuts = sorted(c for c in edges if 0 <= c <= len(data))
+        else:
+            all_cuts = range(0, len(data) + 1)
+        for cut in all_cuts:
             if HANGS[0] >= MAX_HANGS:
                 break
             vias = ["fileobj", "lowlevel"] + (["path"] if thorough or cut % 5 == si % 5 else [])
@@ -203,7 +240,7 @@ def run(tier):
         with gzip.GzipFile(fileobj=gz, mode="wb", mtime=0) as g:
             g.write(data)
         gzb = gz.getvalue()
-        gstep = 1
+        gstep = 1 if not big else max(1, len(gzb) // 150)
         for cut in list(range(0, len(gzb), gstep)) + [len(gzb)]:
             try:
                 plain = zlib.decompressobj(wbits=31).decompress(gzb[:cut])
@@ -218,6 +255,8 @@ def run(tier):
                 meta.append({"kind": "gzcut:" + via, "stream": si, "cut": cut, "plain": len(plain), "exc": exc})
         # (c) every index of a failing / short fp.write x partial counts
         ncalls = 2 * len(lay)
+        if big:
+            continue        # the call-level faults are covered by the ordinary streams
         for mode in ("raise", "short"):
             for k in range(ncalls):
                 for partial in (0, 1, -1):
@@ -262,6 +301,25 @@ def run(tier):
                 cases.append({"layout": slay if wrote_all else lay, "cut": len(disk), "pin_boundary": True, "raw": wrote_all, "calls_comparable": False, "calls": [],
                               "obs": {"yielded": len(out), "identical": identical(out, written), "how": how}})
                 meta.append({"kind": "short-continue", "stream": si, "call": k, "partial": partial, "disk": len(disk), "exc": exc, "writer_went_on": wrote_all})
+        # (c3) a file object that takes at most n bytes per call, for every call: the stream must come out byte for byte the same
+        for nmax in (1, 2, 3, 5, 64):
+            dr = Dribble(nmax, 3 * len(data) + 1000)
+            w = RecordStreamWriter(dr)
+            wrote_all = True
+            try:
+                for r in recs:
+                    w.write(r)
+            except Runaway as e:
+                ctx.violation({"check": "writer-runs-away", "kind": "dribble", "max_bytes_per_call": nmax}, {"stream": si, "error": str(e)})
+                wrote_all = False
+            except Exception:
+                wrote_all = False
+            w.fp = None
+            disk = bytes(dr.data)
+            out, how, exc = read_disk(disk)
+            cases.append({"layout": lay, "cut": len(disk), "pin_boundary": True, "raw": wrote_all and disk == data, "calls_comparable": False, "calls": [],
+                          "obs": {"yielded": len(out), "identical": identical(out, written) and (disk == data or not wrote_all), "how": how}})
+            meta.append({"kind": "dribble", "stream": si, "call": nmax, "partial": None, "disk": len(disk), "exc": exc, "same_bytes": disk == data})
         # (d) a transient failure: one fp.write(length) call raises with nothing written and the application carries
         #     on with the next record -- the frame is absent, the stream stays well formed
         colliding = len({(f["k"], tuple(f["ids"])) for f in lay if f["k"] == "DESC"}) != len(
